@@ -7,6 +7,7 @@ import attrs
 
 from srctools import conv_float
 from srctools.keyvalues import Keyvalues, NoKeyError
+from srctools.tokenizer import escape_text
 
 
 __all__ = [
@@ -563,7 +564,7 @@ class Sound:
 
         Pass a file-like object open for text writing.
         """
-        file.write(f'"{self.name}"\n\t{{\n')
+        file.write(f'"{escape_text(self.name)}"\n\t{{\n')
         file.write(f'\tchannel {self.channel}\n')
         file.write(f'\tsoundlevel "{join_float(self.level)}"\n')
 
@@ -575,10 +576,10 @@ class Sound:
         if len(self.sounds) != 1:
             file.write('\trndwave\n\t\t{\n')
             for wav in self.sounds:
-                file.write(f'\t\twave "{wav}"\n')
+                file.write(f'\t\twave "{escape_text(wav)}"\n')
             file.write('\t\t}\n')
         else:
-            file.write(f'\twave "{self.sounds[0]}"\n')
+            file.write(f'\twave "{escape_text(self.sounds[0])}"\n')
 
         if self.force_v2 or self.stack_start or self.stack_stop or self.stack_update:
             file.write(
